@@ -555,6 +555,14 @@ pub struct AExec {
 fn aresolve(root: &AsyncVfsPath, s: &str) -> VfsResult<AsyncVfsPath> {
     if s.is_empty() {
         Ok(root.clone())
+    } else if s.contains(crate::model::JOIN_SEP) {
+        let mut cur = root.clone();
+        for seg in s.split(crate::model::JOIN_SEP) {
+            if !seg.is_empty() {
+                cur = cur.join(seg)?;
+            }
+        }
+        Ok(cur)
     } else {
         root.join(s)
     }
@@ -695,12 +703,14 @@ impl AExec {
                 let (a, b) = (path(a)?, path(b)?);
                 a.move_file(&b).await.map(|_| Out::Unit).map_err(v)
             }
-            Op::CopyDir(a, b) => {
-                let (a, b) = (path(a)?, path(b)?);
+            Op::CopyDir(pa, pb) => {
+                let (a, b) = (path(pa)?, path(pb)?);
+                crate::ops::own_subtree_guard(pa, pb, a.as_str(), b.as_str())?;
                 a.copy_dir(&b).await.map(Out::Count).map_err(v)
             }
-            Op::MoveDir(a, b) => {
-                let (a, b) = (path(a)?, path(b)?);
+            Op::MoveDir(pa, pb) => {
+                let (a, b) = (path(pa)?, path(pb)?);
+                crate::ops::own_subtree_guard(pa, pb, a.as_str(), b.as_str())?;
                 a.move_dir(&b).await.map(|_| Out::Unit).map_err(v)
             }
             Op::SetTime(p, f, secs, nanos) => {
